@@ -197,9 +197,24 @@ def C03_delivery_full : Prop :=
         EntitledSpec (run (init caps) ops) pk n) ∧
       ((publishToSubscribers (run (init caps) ops) pk).2.filterMap pubConn).count n ≤ 1
 
-/-- **Step 3 — `C03_delivery_exact_seq`, restricted (hence `_partial`).**  For every history `ops` without schedule
-    ops from `init caps` (connection numbers fresh), `s := run (init caps) ops`, and every application message `pk`
-    of QoS 0 whose topic no shared subscription of the index matches:
+/-- **Step 3, on the invariants.**  The statement of steps 1/2 in every state that satisfies the three all-history
+    invariants `SyncInv` (index and sessions agree), `WF` (the tables are maps), `ConnMap` (one connection per
+    client object), plus the session reading of "holds a matching entry". -/
+theorem C03_delivery_exact_inv_partial (s : Server) (hs : SyncInv s) (hw : WF s) (hcm : ConnMap s)
+    (pk : Msg) (hig : pk.ignore = false) (ht : pk.type = 3) (hq : pk.qos = 0)
+    (hne : pk.topic ≠ []) (hnh : ∀ t ∈ splitLevels pk.topic, t ≠ [hash])
+    (hsh : (subscribers s.topics pk.topic).shared = []) (n : Nat) :
+    ((∃ ver m me, Out.wrote n (.publish ver m me) ∈ (publishToSubscribers s pk).2) ↔ EntitledF03 s pk n) ∧
+    (EntitledF03 s pk n ↔ EntitledSession s pk n) ∧
+    ((publishToSubscribers s pk).2.filterMap pubConn).count n ≤ 1 ∧
+    ∀ x ∈ (publishToSubscribers s pk).2, (∃ id, x = Out.inline id pk.topic pk.payload) ∨ IsCopy pk x := by
+  obtain ⟨h1, h2, h3⟩ := C03_delivery_exact_state_partial s hw hcm.distinct hs.idx pk hig ht hq hne hnh hsh n
+  exact ⟨h1, entitledF03_iff_session hs hw pk n, h2, h3⟩
+
+/-- **Step 3 — `C03_delivery_exact_seq`, restricted (hence `_partial`).**  For every state `s` reached from
+    `init caps` by ops that are not schedule ops (connection numbers fresh), interleaved with configuration changes
+    (ACL denials, publish hook, authentication mode, seeds: `ReachSeq`), and every application message `pk` of QoS 0
+    whose topic no shared subscription of the index matches:
 
     1. a PUBLISH is written to connection `n` **iff** `EntitledF03 s pk n` — `n` is the connection of a client
        object registered under its id, open, not inline, peer not gone; the index holds a plain subscription of that
@@ -212,7 +227,19 @@ def C03_delivery_full : Prop :=
 
     Excluded: shared subscriptions matching the topic (`hsh`), QoS > 0 (in-flight limit, packet identifiers, send
     quota: `hq`), topic aliases as far as the topic BYTES of the copy go (conclusion 4 does not mention them),
-    schedule ops (`SeqOps`), and the No Local merge (1. states what the model does, not what C03 asks: F03). -/
+    schedule ops (`ReachSeq`), and the No Local merge (1. states what the model does, not what C03 asks: F03). -/
+theorem C03_delivery_exact_reach_partial (caps : Caps) (s : Server) (hr : ReachSeq caps s)
+    (pk : Msg) (hig : pk.ignore = false) (ht : pk.type = 3) (hq : pk.qos = 0)
+    (hne : pk.topic ≠ []) (hnh : ∀ t ∈ splitLevels pk.topic, t ≠ [hash])
+    (hsh : (subscribers s.topics pk.topic).shared = []) (n : Nat) :
+    ((∃ ver m me, Out.wrote n (.publish ver m me) ∈ (publishToSubscribers s pk).2) ↔ EntitledF03 s pk n) ∧
+    (EntitledF03 s pk n ↔ EntitledSession s pk n) ∧
+    ((publishToSubscribers s pk).2.filterMap pubConn).count n ≤ 1 ∧
+    ∀ x ∈ (publishToSubscribers s pk).2, (∃ id, x = Out.inline id pk.topic pk.payload) ∨ IsCopy pk x :=
+  C03_delivery_exact_inv_partial s hr.inv.1 hr.inv.2.1 hr.inv.2.2.1 pk hig ht hq hne hnh hsh n
+
+/-- the same for `s := run (init caps) ops`, `ops` a history without schedule ops (no configuration change: no
+    ACL denial is ever in force in such a state — use `C03_delivery_exact_reach_partial` for those) -/
 theorem C03_delivery_exact_seq_partial (caps : Caps) (ops : List Op) (hseq : SeqOps ops)
     (hf : OpsFresh (init caps) ops) (pk : Msg) (hig : pk.ignore = false) (ht : pk.type = 3) (hq : pk.qos = 0)
     (hne : pk.topic ≠ []) (hnh : ∀ t ∈ splitLevels pk.topic, t ≠ [hash])
@@ -222,33 +249,120 @@ theorem C03_delivery_exact_seq_partial (caps : Caps) (ops : List Op) (hseq : Seq
     (EntitledF03 (run (init caps) ops) pk n ↔ EntitledSession (run (init caps) ops) pk n) ∧
     ((publishToSubscribers (run (init caps) ops) pk).2.filterMap pubConn).count n ≤ 1 ∧
     ∀ x ∈ (publishToSubscribers (run (init caps) ops) pk).2,
-      (∃ id, x = Out.inline id pk.topic pk.payload) ∨ IsCopy pk x := by
-  have hw := WF_run caps ops hf
-  have hs := SyncInv_run caps ops hf (hseq.schedOK caps ops hf)
-  have hcd := ConnDistinct_run_seq caps ops hseq hf
-  obtain ⟨h1, h2, h3⟩ := C03_delivery_exact_state_partial _ hw hcd hs.idx pk hig ht hq hne hnh hsh n
-  exact ⟨h1, entitledF03_iff_session hs hw pk n, h2, h3⟩
+      (∃ id, x = Out.inline id pk.topic pk.payload) ∨ IsCopy pk x :=
+  C03_delivery_exact_reach_partial caps _ (ReachSeq.init.run ops hseq hf) pk hig ht hq hne hnh hsh n
 
 /-- outside the F03 situation (the publisher holds a matching subscription with No Local AND a matching one without)
     the recipients are exactly those C03 names -/
-theorem C03_delivery_exact_seq_spec_partial (caps : Caps) (ops : List Op) (hseq : SeqOps ops)
-    (hf : OpsFresh (init caps) ops) (pk : Msg) (hig : pk.ignore = false) (ht : pk.type = 3) (hq : pk.qos = 0)
+theorem C03_delivery_exact_reach_spec_partial (caps : Caps) (s : Server) (hr : ReachSeq caps s)
+    (pk : Msg) (hig : pk.ignore = false) (ht : pk.type = 3) (hq : pk.qos = 0)
     (hne : pk.topic ≠ []) (hnh : ∀ t ∈ splitLevels pk.topic, t ≠ [hash])
-    (hsh : (subscribers (run (init caps) ops).topics pk.topic).shared = [])
-    (hmix : ¬ MixedNoLocal (run (init caps) ops) pk) (n : Nat) :
-    ((∃ ver m me, Out.wrote n (.publish ver m me) ∈ (publishToSubscribers (run (init caps) ops) pk).2) ↔
-      EntitledSpec (run (init caps) ops) pk n) ∧
-    ((publishToSubscribers (run (init caps) ops) pk).2.filterMap pubConn).count n ≤ 1 := by
-  obtain ⟨h1, _, h3, _⟩ := C03_delivery_exact_seq_partial caps ops hseq hf pk hig ht hq hne hnh hsh n
+    (hsh : (subscribers s.topics pk.topic).shared = []) (hmix : ¬ MixedNoLocal s pk) (n : Nat) :
+    ((∃ ver m me, Out.wrote n (.publish ver m me) ∈ (publishToSubscribers s pk).2) ↔ EntitledSpec s pk n) ∧
+    ((publishToSubscribers s pk).2.filterMap pubConn).count n ≤ 1 := by
+  obtain ⟨h1, _, h3, _⟩ := C03_delivery_exact_reach_partial caps s hr pk hig ht hq hne hnh hsh n
   exact ⟨h1.trans (entitledF03_iff_spec hmix n), h3⟩
 
 /-- soundness holds without the F03 proviso: whoever is written the message is entitled in the sense of C03 -/
-theorem C03_delivery_sound_seq_partial (caps : Caps) (ops : List Op) (hseq : SeqOps ops)
-    (hf : OpsFresh (init caps) ops) (pk : Msg) (hig : pk.ignore = false) (ht : pk.type = 3) (hq : pk.qos = 0)
+theorem C03_delivery_sound_reach_partial (caps : Caps) (s : Server) (hr : ReachSeq caps s)
+    (pk : Msg) (hig : pk.ignore = false) (ht : pk.type = 3) (hq : pk.qos = 0)
     (hne : pk.topic ≠ []) (hnh : ∀ t ∈ splitLevels pk.topic, t ≠ [hash])
-    (hsh : (subscribers (run (init caps) ops).topics pk.topic).shared = []) (n : Nat)
-    (h : ∃ ver m me, Out.wrote n (.publish ver m me) ∈ (publishToSubscribers (run (init caps) ops) pk).2) :
-    EntitledSpec (run (init caps) ops) pk n :=
-  ((C03_delivery_exact_seq_partial caps ops hseq hf pk hig ht hq hne hnh hsh n).1.mp h).spec
+    (hsh : (subscribers s.topics pk.topic).shared = []) (n : Nat)
+    (h : ∃ ver m me, Out.wrote n (.publish ver m me) ∈ (publishToSubscribers s pk).2) : EntitledSpec s pk n :=
+  ((C03_delivery_exact_reach_partial caps s hr pk hig ht hq hne hnh hsh n).1.mp h).spec
+
+/-! ## Non-vacuity
+
+Three kinds of subscriber (an MQTT 3.1.1 client, MQTT 5 clients, an inline subscriber), overlapping plain
+subscriptions (`a/#`, `a/+`, `a/b`), a No Local subscription of the publisher, a read-ACL denial, a closed session. -/
+
+/-- `x` (MQTT 3.1.1, connection 1): `a/#`.  `y` (MQTT 5, connection 2): `a/+` and `a/b` — two matches, one copy.
+    Inline subscriber 7: `a/b`.  `p` (connection 3, the publisher): `a/b` with No Local.  `z` (connection 4): `a/#`, but
+    denied to read `a/b` (configured below).  `w` (connection 5, session expiry 100): `a/b`, then its connection is
+    lost — the session stays, closed. -/
+def c03History : List Op :=
+  [.connect 1 { ver := 4, id := [120] },
+   .recv 1 (.subscribe 1 0 [{ filter := [97, 47, 35] }]),
+   .connect 2 { ver := 5, id := [121] },
+   .recv 2 (.subscribe 1 0 [{ filter := [97, 47, 43] }, { filter := [97, 47, 98] }]),
+   .inlineSubscribe 7 [97, 47, 98],
+   .connect 3 { ver := 5, id := [112] },
+   .recv 3 (.subscribe 1 0 [{ filter := [97, 47, 98], noLocal := true }]),
+   .connect 4 { ver := 5, id := [122] },
+   .recv 4 (.subscribe 1 0 [{ filter := [97, 47, 35] }]),
+   .connect 5 { ver := 5, id := [119], clean := false, sei := some 100 },
+   .recv 5 (.subscribe 1 0 [{ filter := [97, 47, 98] }]),
+   .drop 5]
+
+/-- the state after the history, with the read denial `(z, a/b)` configured (`bk.acl` of the harness) -/
+def c03State : Server := { run (init {}) c03History with aclDeny := [([122], [97, 47, 98], false)] }
+
+/-- `p` publishes `a/b`, QoS 0 -/
+def c03Msg : Msg := { topic := [97, 47, 98], payload := [1], origin := [112] }
+
+theorem c03State_reach : ReachSeq {} c03State :=
+  (ReachSeq.init.run c03History (by decide) (by decide)).config ⟨rfl, rfl, rfl, rfl, rfl, rfl, rfl, rfl⟩
+
+/-- the hypotheses of `C03_delivery_exact_reach_partial` hold … -/
+example : c03Msg.ignore = false ∧ c03Msg.type = 3 ∧ c03Msg.qos = 0 ∧ c03Msg.topic ≠ [] ∧
+    (∀ t ∈ splitLevels c03Msg.topic, t ≠ [hash]) ∧ (subscribers c03State.topics c03Msg.topic).shared = [] := by decide
+/-- … all six sessions are registered, five entries of the subscriber map (one per client id, `y` once) … -/
+example : c03State.clients.map (·.1) = [inlineID, [120], [121], [112], [122], [119]] := by decide
+example : (subscribers c03State.topics c03Msg.topic).subs.map (·.1) = [[121], [112], [119], [120], [122]] := by decide
+/-- … and the publish reaches exactly connections 2 and 1, each once, and the inline subscriber: three outputs -/
+example : (publishToSubscribers c03State c03Msg).2.filterMap pubConn = [2, 1] := by decide
+example : (publishToSubscribers c03State c03Msg).2.length = 3 ∧
+    Out.inline 7 [97, 47, 98] [1] ∈ (publishToSubscribers c03State c03Msg).2 := by decide
+
+/-- the theorem, instantiated: `x` and `y` are entitled (read off the outputs), the publisher (No Local), `z` (read
+    denial) and `w` (closed) are not -/
+example : EntitledF03 c03State c03Msg 1 ∧ EntitledF03 c03State c03Msg 2 ∧ ¬ EntitledF03 c03State c03Msg 3 ∧
+    ¬ EntitledF03 c03State c03Msg 4 ∧ ¬ EntitledF03 c03State c03Msg 5 := by
+  have h := fun n => (C03_delivery_exact_reach_partial {} c03State c03State_reach c03Msg rfl rfl rfl (by decide)
+    (by decide) (by decide) n).1
+  have ho : (publishToSubscribers c03State c03Msg).2.filterMap pubConn = [2, 1] := by decide
+  refine ⟨(h 1).mp (mem_pubConns.mp (by rw [ho]; decide)), (h 2).mp (mem_pubConns.mp (by rw [ho]; decide)), ?_, ?_, ?_⟩ <;>
+  · intro e
+    have := mem_pubConns.mpr ((h _).mpr e)
+    rw [ho] at this
+    revert this
+    decide
+
+/-- F03, as a history: `p` holds `a/#` with No Local and `a/b` without; it publishes `a/b` -/
+def f03History : List Op :=
+  [.connect 1 { ver := 5, id := [112] },
+   .recv 1 (.subscribe 1 0 [{ filter := [97, 47, 35], noLocal := true }]),
+   .recv 1 (.subscribe 2 0 [{ filter := [97, 47, 98] }])]
+
+/-- `p` is entitled in the sense of C03 (through `a/b`), and is written nothing: **C03 as stated is false of the model
+    (and of the broker: recorded finding F03)** -/
+theorem C03_delivery_full_false_F03 : ¬ C03_delivery_full := by
+  intro h
+  have h1 := (h {} f03History (by decide) { topic := [97, 47, 98], payload := [1], origin := [112] } 1 rfl rfl).1
+  have hs : EntitledSpec (run (init {}) f03History) { topic := [97, 47, 98], payload := [1], origin := [112] } 1 :=
+    ⟨[112], 1, by decide, by decide, by decide, by decide, by decide, by decide, { filter := [97, 47, 98] },
+      ⟨by decide, by decide⟩, by decide⟩
+  obtain ⟨ver, m, me, hm⟩ := h1.mpr hs
+  have ho : (publishToSubscribers (run (init {}) f03History)
+      { topic := [97, 47, 98], payload := [1], origin := [112] }).2 = [] := by decide
+  rw [ho] at hm
+  cases hm
+
+/-- … while the restricted theorem applies to that very state and says so: the F03 situation is present, `p` is not
+    entitled in the model's sense -/
+example : MixedNoLocal (run (init {}) f03History) { topic := [97, 47, 98], payload := [1], origin := [112] } :=
+  ⟨{ filter := [97, 47, 35], noLocal := true }, { filter := [97, 47, 98] }, ⟨by decide, by decide⟩, rfl,
+    ⟨by decide, by decide⟩, rfl⟩
 
 end Mochi.Broker
+
+#print axioms Mochi.Broker.publishToSubscribers_writes_exact
+#print axioms Mochi.Broker.C03_delivery_exact_state_partial
+#print axioms Mochi.Broker.C03_delivery_exact_runOps_partial
+#print axioms Mochi.Broker.C03_delivery_exact_inv_partial
+#print axioms Mochi.Broker.C03_delivery_exact_reach_partial
+#print axioms Mochi.Broker.C03_delivery_exact_seq_partial
+#print axioms Mochi.Broker.C03_delivery_exact_reach_spec_partial
+#print axioms Mochi.Broker.C03_delivery_sound_reach_partial
+#print axioms Mochi.Broker.C03_delivery_full_false_F03
+#print axioms Mochi.Broker.c03State_reach
